@@ -8,7 +8,7 @@ from __future__ import annotations
 
 import ast
 
-from .interp import analyze, truth
+from .interp import analyze, analyze_precise, truth
 from .model import FuncInfo, Model, unparse
 from .terms import NONE, show
 
@@ -376,6 +376,11 @@ class Shapes:
         for k, v in t[3]:
             if k in params:
                 out[k] = self.shape(v, facts, fi, ps, res, d)
+        for p in params:
+            if p not in out:
+                dflt = target.param_default(p)
+                if isinstance(dflt, ast.Constant):
+                    out[p] = self.shape(("const", dflt.value), {}, None)
         return tuple(sorted(out.items()))
 
     def _call(self, t, facts, fi, ps, res, d):
@@ -459,7 +464,7 @@ class Shapes:
             return self.top
         self._active.add(key)
         try:
-            r = analyze(self.model, target)
+            r = analyze_precise(self.model, target)
             ps = dict(argshapes)
             outs = []
             for s, v, _node in r.returns:
